@@ -190,6 +190,11 @@ def run(ctx):
                                                                                    len(rec['ops'] or [])))
     # ---- R5 carried through ------------------------------------------------------------
     _carried(ctx)
+    # R7: "the logged final score is the score of the written structure": what is written is the scored state, value for value
+    # (the serialiser fidelity obligations of C11.R1, imported: a writer that rounds, rescales or skips a stored value writes a
+    # structure with another score)
+    from .common import import_obligations
+    import_obligations(ctx, 'C11', 'R7', only_rules={'R1'}, floor=40)
 
 
 def _role_of_type(ty):
@@ -552,7 +557,7 @@ def _wyckoff_by_value(f, ws, agg):
     return True, 'symmetries = [from_operations(s)? for s in group.wyckoff_str] (fill loop, by value)'
 
 
-def _carried(ctx):
+def _carried(ctx, main=True):
     rep, f = ctx.rep, ctx.facts
     # Wallpaper::new copies name and family
     wn = f.one(self_adt='wallpaper::Wallpaper', name='new')
@@ -694,7 +699,8 @@ def _carried(ctx):
                   'wallpaper argument = Wallpaper { name: group.name, family: group.family } by value',
                   'initialise does not receive the Wallpaper built from the group: %s' % why_l)
     rep.floor('R5', 'from_group constructors', n, 2)
-    _main(ctx)
+    if main:
+        _main(ctx)
 
 
 def _syms(v):
